@@ -76,7 +76,9 @@ impl WorkerState {
             let life_time = Instant::now() - self.start_time;
             #[cfg(feature = "verif")]
             let life_time = (Instant::now() + crate::verif::clock::offset()) - self.start_time;
-            Some(limit - life_time)
+            // The limit may be already over when a message is processed
+            // just before the worker ends itself
+            Some(limit.saturating_sub(life_time))
         } else {
             None
         }
